@@ -225,8 +225,58 @@ func makeImg(t *tape.Tape, kind int, rect image.Rectangle, sub bool) *Img {
 		}
 		p.Palette = pal
 	}
-	mode := t.Pick(4, 1, 1, 1)
+	mode := t.Pick(4, 1, 1, 1, 2)
+	bpp, abytes := 1, 0 // bytes per pixel, trailing alpha bytes
+	switch kind {
+	case kRGBA64, kNRGBA64:
+		bpp, abytes = 8, 2
+	case kRGBA, kNRGBA:
+		bpp, abytes = 4, 1
+	case kCMYK:
+		bpp = 4
+	case kGray16, kAlpha16:
+		bpp = 2
+	}
 	for _, pl := range planes(parent) {
+		switch mode {
+		case 4:
+			// flat areas, shadows and soft edges: a few colours in runs; a pixel
+			// often repeats its predecessor (in memory order, so also across the
+			// end of a row) completely, in everything but alpha, or in everything
+			// but one colour byte
+			pool := make([][]uint8, 2+r.Intn(3))
+			for i := range pool {
+				pool[i] = make([]uint8, bpp)
+				r.Fill(pool[i])
+				if r.Intn(3) == 0 {
+					for k := 0; k < bpp-abytes; k++ {
+						pool[i][k] = 0 // black of any alpha
+					}
+				}
+			}
+			prev := pool[0]
+			for o := 0; o+bpp <= len(pl); o += bpp {
+				px := pl[o : o+bpp]
+				switch r.Intn(6) {
+				case 0:
+					copy(px, pool[r.Intn(len(pool))])
+				case 1, 2:
+					copy(px, prev)
+					if abytes > 0 {
+						for k := bpp - abytes; k < bpp; k++ {
+							px[k] = uint8(r.Intn(256))
+						}
+					}
+				case 3:
+					copy(px, prev)
+					px[r.Intn(bpp)] ^= uint8(1 << uint(r.Intn(8)))
+				default:
+					copy(px, prev)
+				}
+				prev = px
+			}
+			continue
+		}
 		switch mode {
 		case 0:
 			r.Fill(pl)
